@@ -297,3 +297,17 @@ pub fn order_all_late_twin(a: u64, b: Big) -> Result<u64, String> { m1(); let v 
 #[instrument(ret, level = "debug")]
 pub async fn order_ret_level_async(a: u64) -> u64 { m1(); let v = helper().await; m2(); a + v }
 pub async fn order_ret_level_async_twin(a: u64) -> u64 { m1(); let v = helper().await; m2(); a + v }
+
+// ---- #[track_caller]: the body's `Location::caller()` is the caller's location only while the body stays in the function
+// itself; a closure (the `ret` / `err` wrappers) does not inherit the attribute
+#[track_caller]
+#[instrument]
+pub fn tc_plain(a: u64) -> u64 { m1(); let l = ::core::panic::Location::caller(); a + l.line() as u64 + m2() }
+#[track_caller]
+pub fn tc_plain_twin(a: u64) -> u64 { m1(); let l = ::core::panic::Location::caller(); a + l.line() as u64 + m2() }
+
+#[track_caller]
+#[instrument(ret)]
+pub fn tc_ret(a: u64) -> u64 { m1(); let l = ::core::panic::Location::caller(); a + l.line() as u64 + m2() }
+#[track_caller]
+pub fn tc_ret_twin(a: u64) -> u64 { m1(); let l = ::core::panic::Location::caller(); a + l.line() as u64 + m2() }
